@@ -237,7 +237,10 @@ def check(ck, prog):
                             ds = list(ctx.prov.expand(bnd))
                             bnd = strip_casts(ds[0]) if len(ds) == 1 else bnd
                         return isinstance(bnd, tuple) and bnd[0] == "bin" and bnd[1] == "Div" and canon(strip_casts(bnd[2])) == nparam and fold(bnd[3]) == S
-                    guard = any(f[0] == "cmp" and f[1] == "Lt" and canon(strip_casts(f[2])) == canon(iv) and bound_ok(f[3]) for f in panics.dominating_facts(ctx, sb))
+                    # `i != m` is the same guard for an index that runs up from 0 by one (it cannot step over m)
+                    guard = any(f[0] == "cmp" and ((f[1] == "Lt" and canon(strip_casts(f[2])) == canon(iv) and bound_ok(f[3])) or
+                                                   (f[1] == "Ne" and ((canon(strip_casts(f[2])) == canon(iv) and bound_ok(f[3])) or (canon(strip_casts(f[3])) == canon(iv) and bound_ok(f[2])))))
+                                for f in panics.dominating_facts(ctx, sb))
                     inc_bbs = [b["id"] for b in fn["blocks"] if b["id"] in cyc for st2 in b["stmts"] if st2["k"] == "assign" and st2["dst"]["l"] == iv[1] and not st2["dst"].get("p")]
                     # forward: element i is stored, then i is bumped; backward: i is bumped first and element i (the new value) is stored
                     order = len(inc_bbs) == 1 and ((direction > 0 and off == 0 and cfg.dominates(sb, inc_bbs[0])) or (direction < 0 and off == 1) or
@@ -270,6 +273,28 @@ def check(ck, prog):
               detail=f"inside the loop the {nptr} cursor(s) must each move by exactly one element {'upward' if direction > 0 else 'downward'}; found {[(t['callee'].split('::')[-1], show(ctx.args(bb)[1])) for bb, t in steps]}")
         # the bound pointer: dest +/- n, computed once outside the loop
         bound_ok = len(outside) == 1 and outside[0][1]["callee"].endswith(want_suffix) and canon(ctx.args(outside[0][0])[0]) == "p1" and canon(ctx.args(outside[0][0])[1]) == "p3"
+        # the same number of rounds counted down instead of compared with a bound pointer: remaining = n; while remaining > 0 { remaining -= 1; .. }
+        countdown = None
+        if not outside and st_in:
+            nparam_ = f"p{fn['argc']}"
+            for f in panics.dominating_facts(ctx, st_in[0][0]):
+                if f[0] != "cmp":
+                    continue
+                cands = []
+                if f[1] in ("Gt", "Ne") and fold(f[3]) == 0:
+                    cands.append(strip_casts(f[2]))
+                if f[1] in ("Lt", "Ne") and fold(f[2]) == 0:
+                    cands.append(strip_casts(f[3]))
+                for cv in cands:
+                    if isinstance(cv, tuple) and cv[0] == "var":
+                        defs_ = [strip_casts(d) for d in ctx.prov.expand(cv)]
+                        starts = [d for d in defs_ if canon(d) == nparam_]
+                        decs = [d for d in defs_ if isinstance(d, tuple) and d[0] == "bin" and d[1] in ("Sub", "SubWithOverflow", "SubUnchecked") and fold(d[3]) == 1 and canon(strip_casts(d[2])) == canon(cv)]
+                        dec_bbs = [b["id"] for b in fn["blocks"] if b["id"] in cyc for st2 in b["stmts"] if st2["k"] == "assign" and st2["dst"]["l"] == cv[1] and not st2["dst"].get("p")]
+                        if len(defs_) == 2 and len(starts) == 1 and len(decs) == 1 and len(dec_bbs) == 1:
+                            countdown = cv
+        if countdown is not None:
+            bound_ok = True
         ck.ob("C08.6", f"{short}|bound-is-dest{'+' if direction > 0 else '-'}n", bound_ok, fn=lf, detail=f"the loop bound must be the destination {'plus' if direction > 0 else 'minus'} the length, formed once before the loop; pointer arithmetic outside the loop: {[(t['callee'].split('::')[-1], [show(a) for a in ctx.args(bb)]) for bb, t in outside]}")
         if st_in and len(good_steps) == nptr:
             sb, si, s = st_in[0]
@@ -315,6 +340,13 @@ def check(ck, prog):
                                 is_bnd = mentions(bnd, ctx.prov, lambda z: z[0] == "call" and z[3] == (outside[0][0] if outside else -1))
                                 if is_cur and is_bnd:
                                     guard = True
+                            if f[0] == "cmp" and f[1] == "Ne":
+                                # a cursor that moves one element at a time towards the bound cannot step over it: `!=` is the same guard
+                                for cur, bnd in ((strip_casts(f[2]), strip_casts(f[3])), (strip_casts(f[3]), strip_casts(f[2]))):
+                                    if isinstance(cur, tuple) and cur[0] == "var" and cur[1] == dcur and mentions(bnd, ctx.prov, lambda z: z[0] == "call" and z[3] == (outside[0][0] if outside else -1)):
+                                        guard = True
+            if countdown is not None:
+                guard = True
             ck.ob("C08.6", f"{short}|loop-guard", guard, fn=lf, detail="the loop body must run exactly while the destination cursor is " + ("below dest + n" if direction > 0 else "above dest - n"))
     # unaligned word read: 8 bytes at the given address
     ru = prog.fns.get(M + "read_usize_unaligned")
